@@ -323,8 +323,9 @@ impl<R: Round> Context<R> {
             let low_prec = if ldigits >= rnd_precision {
                 2
             } else {
-                (rnd_precision - ldigits) + 1
-            }; // low_prec >= 2
+                (rnd_precision - ldigits) + 2
+            }; // low_prec >= 2, and at least two digits remain after the sum is expanded to
+               // rnd_precision digits, so that the stand-in never looks like a tie (1/B = 1/2 in base 2)
             low = (rhs_sign * rhs.significand.signum(), low_prec);
             (lhs.significand, lhs.exponent)
         } else if self.is_limited() && ldigits >= self.precision {
@@ -414,7 +415,7 @@ impl<R: Round> Context<R> {
             let low_prec = if rdigits >= rnd_precision {
                 2
             } else {
-                (rnd_precision - rdigits) + 1
+                (rnd_precision - rdigits) + 2
             };
             low = (lhs.significand.signum(), low_prec);
             (rhs_sign * rhs.significand.clone(), rhs.exponent)
